@@ -4,7 +4,7 @@ import Bclv.Proofs.Bufio
 # C13 — truncated bytecode is rejected with an error
 -/
 namespace Bclv.C13
-open Bclv
+open Bclv Bclv.Buf
 
 /-- Every proper prefix of a valid dump is rejected with an error: never accepted,
 never a panic. -/
